@@ -193,6 +193,12 @@ def check(prop, tier, seed):
         if unconfirmed and not confirmed_new:
             # solver says sat but the model does not fail natively: bounded search over the same contract
             new_fail = [f for f in smp.get("failures", []) if not (f.get("known") and f["known"] in kf)]
+            if not new_fail and hasattr(c, "call"):
+                big = _sample_task((r["contract"], r["binding"], seed + 7, 3000 if tier == "quick" else 20000))
+                if "error" not in big:
+                    smp = big
+                    samples.append(big)
+                    new_fail = [f for f in smp.get("failures", []) if not (f.get("known") and f["known"] in kf)]
             known_fail = [f for f in smp.get("failures", []) if f.get("known") and f["known"] in kf]
             for f in known_fail:
                 findings_seen.setdefault(f["known"], {"replay": None, "why": f["why"], "inputs": f["inputs"]})
@@ -312,8 +318,11 @@ def crosscheck(results, sample_by_key, api):
                 for k, e in r["binding"].items():
                     vars_[k] = v.eval_expr(e)
                 v.path_env = None
+                v.concrete_schedule = None
+                if "__schedule__" in case["inputs"]:
+                    v.concrete_schedule = {"vals": eval(case["inputs"]["__schedule__"]), "pos": 0}
                 for k, e in case["inputs"].items():
-                    if k not in r["binding"]:
+                    if k not in r["binding"] and not k.startswith("__"):
                         vars_[k] = v.interp.eval(ast.parse(e, mode="eval").body, Env(vars=dict(vars_), glob=v.interp.builtins))
                 for stmt in getattr(c, "setup", ()):
                     v.exec_stmts(stmt, vars_)
@@ -328,6 +337,7 @@ def crosscheck(results, sample_by_key, api):
                 continue
             finally:
                 set_ctx(None)
+                v.concrete_schedule = None
             theirs = case.get("real") or ""
             if theirs.startswith("raised "):
                 theirs_n = "raised " + theirs.split(":")[0].split(".")[-1]
